@@ -493,7 +493,7 @@ pub fn run_c04(ctx: &Ctx) -> i32 {
             }
         }
     }
-    let cap_n = if quick { 400 } else { 4000 };
+    let cap_n = if quick { 1500 } else { 20000 };
     let work: Vec<(usize, usize)> = cases.iter().enumerate().flat_map(|(i, c)| (0..=c.n.min(cap_n) + 1).map(move |k| (i, k))).collect();
     for c in &cases {
         if c.n > cap_n {
